@@ -18,4 +18,5 @@ CONSTANTS
   OverflowWrapped = TRUE
   InstOffsetAll = TRUE
   OpenPrecheck = TRUE
+  EmbLexerClone = TRUE
 CHECK_DEADLOCK FALSE
